@@ -167,6 +167,7 @@ structure DrvSt where
   tq : TQ.St := TQ.init
   ep : EP.St := EP.init
   epc : EPC.St := EPC.init
+  hp : Route.St := Route.init
   /-- kernel stream: per core its tracker and the tuples in its conn-state map; `shared` = both
   generations use one bpf object (one tracker, one map) -/
   krnShared : Bool := false
@@ -238,6 +239,33 @@ def handleTrk (st : DrvSt) (toks : List String) : DrvSt × String :=
       let st1 := { st with trk := (st.trk.set c sc).set p sp }
       (st1, s!"cur {TrkDrv.digest sc} prev {TrkDrv.digest sp}")
     | _, _, _ => (st, "bad-op")
+  | _ => (st, "bad-op")
+
+def hpDigest (s : Route.St) : String :=
+  let entries := (List.range s.neps).filterMap fun e =>
+    if s.pool (s.eps e).key = some e then some s!"{ekeyStr (s.eps e).key}={e}" else none
+  let sorted := (entries.toArray.qsort (· < ·)).toList
+  let p := if sorted.isEmpty then "-" else ",".intercalate sorted
+  let eps := (List.range s.neps).map fun e => s!"{e}:d{boolStr (s.eps e).dead}c{boolStr (s.eps e).closed}"
+  let es := if eps.isEmpty then "-" else " ".intercalate eps
+  s!"dials={s.dials} eps={es} pool={p}"
+
+def handleHp (st : DrvSt) (toks : List String) : DrvSt × String :=
+  let s := st.hp
+  match toks with
+  | ["reset"] => ({ st with hp := Route.init }, "ok")
+  | "pkt" :: src :: dst :: hs :: qi :: al :: sens :: ws :: rest =>
+    match apTok? src, apTok? dst, boolTok? hs, boolTok? qi, boolTok? al, boolTok? sens, routingTok? rest with
+    | some src, some dst, some hs, some qi, some al, some sens, some r =>
+      let wl : List Bool := if ws = "-" then [] else ws.toList.map (· == '1')
+      let res := Route.handle s ⟨⟨src, dst, hs, qi, al⟩, r, sens⟩ wl
+      let c := match res.2 with | some e => s!"e{e}" | none => "none"
+      ({ st with hp := res.1 }, s!"carried={c} {hpDigest res.1}")
+    | _, _, _, _, _, _, _ => (st, "bad-op")
+  | ["kill", e] =>
+    match e.toNat? with
+    | some e => let s' := Route.readError s e; ({ st with hp := s' }, hpDigest s')
+    | none => (st, "bad-op")
   | _ => (st, "bad-op")
 
 def handleKrn (st : DrvSt) (toks : List String) : DrvSt × String :=
@@ -505,6 +533,7 @@ def handle (st : DrvSt) (line : String) : DrvSt × String :=
   | "trk" :: rest => handleTrk st rest
   | "drn" :: rest => handleDrn st rest
   | "krn" :: rest => handleKrn st rest
+  | "hp" :: rest => handleHp st rest
   | "key" :: rest => (st, handleKey rest)
   | "tq" :: rest => handleTq st rest
   | "ep" :: rest => handleEp st rest
